@@ -120,3 +120,12 @@ def raise_key(k):
 
 def raise_type(x):
     return None + x
+
+
+def pow2_ops(e):
+    return (2 ** e >= 1, 2 ** e * 4 == 1, 2 ** e < 1)
+
+
+def low_mask(x, k):
+    m = (1 << k) - 1
+    return (x & m, x & (1 << k))
